@@ -19,7 +19,7 @@ static Profile profile_for(const std::string &p) { Profile f;
   else if (p == "C15") { add({OP_INIT}, 3); add({OP_SELECT}, 1); add({OP_EVAL}, 14); add({OP_SET}, 1); f.fresh = false; }
   else if (p == "C17") { add(cops, 2); add({OP_INIT, OP_SELECT, OP_SET, OP_SETVEC, OP_PURGE, OP_INITP}, 1); f.fixtures = true; f.fresh = false; f.cface = true; }
   else if (p == "C16") { add(regs, 2); add({OP_SET, OP_GET, OP_EVAL, OP_SETVEC, OP_CSET, OP_CINIT, OP_PURGE}, 1); add({OP_FATAL}, 6); f.audit = false; f.fresh = false; }
-  else { add(regs); add(param); add(cops); add({OP_EVAL}, 4); f.fixtures = false; }    // "all": used by the sanitizer runs
+  else { add(regs); add(param); add(cops); add({OP_EVAL}, 4); add({OP_FATAL}, 1); add({OP_SETVEC, OP_CSETARR, OP_CGETARR, OP_GETVEC}, 2); f.fixtures = false; }    // "all": used by the sanitizer runs
   return f; }
 
 static Op decode(const std::vector<uint64_t> &r, const Profile &pf, const std::string &prop) { Op o; uint64_t a = r.size() > 0 ? r[0] : 0, b = r.size() > 1 ? r[1] : 0; o.code = pf.codes[a % pf.codes.size()]; o.prec = (a >> 16) & 1; o.n = (a >> 20) & 0xffff;
@@ -45,11 +45,17 @@ int main(int argc, char **argv) {
     Profile pf = profile_for(prop); History H; H.cfg.catalogue = read_catalogue(); if (!pf.fixtures) H.cfg.catalogue.erase(std::remove_if(H.cfg.catalogue.begin(), H.cfg.catalogue.end(), [](const std::string &s) { return s == "masa_test_function" || s == "masa_uninit"; }), H.cfg.catalogue.end());
     H.cfg.check_fresh = pf.fresh; H.cfg.audit_every_step = pf.audit; H.cfg.c_interface = true; H.cfg.fatal_mode = atoi(arg_value(argc, argv, "--fatal-mode", "0")); if (H.cfg.fatal_mode == 1) H.cfg.catalogue.erase(std::remove(H.cfg.catalogue.begin(), H.cfg.catalogue.end(), std::string("sod_1d")), H.cfg.catalogue.end()); H.run(ops); for (size_t i = 0; i < H.trace.size(); i++) fprintf(stderr, "  %3zu %s\n", i + 1, H.trace[i].c_str());
     bool mine = false; for (auto &fl : H.fails) { fprintf(stderr, "  FAIL[%s] at step %d: %s\n", fl.prop.c_str(), fl.step, fl.msg.c_str()); if (fl.prop == prop) mine = true; } fprintf(stderr, "REPLAY %s\n", mine ? "violation" : "pass"); return mine ? 1 : 0; }
+  if (const char *dir = arg_value(argc, argv, "--replay-many")) {   // Valgrind tier: every saved history in one process; only memory errors matter here
+    std::vector<std::string> cat = read_catalogue(); cat.erase(std::remove_if(cat.begin(), cat.end(), [](const std::string &s) { return s == "masa_test_function" || s == "masa_uninit"; }), cat.end()); int n = 0;
+    for (int i = 0;; i++) { std::ifstream f(std::string(dir) + "/case_" + std::to_string(i) + ".case"); if (!f) break; std::stringstream ss; ss << f.rdbuf(); std::vector<Op> ops; std::string pr; if (!history_from_text(ss.str(), ops, pr)) continue; History H; H.cfg.catalogue = cat; H.cfg.check_fresh = true; H.run(ops); n++; }
+    { Quiet q; MASA::masa_verif_reset(); } fprintf(stderr, "replayed %d histories\n", n); return 0; }
+  int dump_n = atoi(arg_value(argc, argv, "--dump", "0")); std::string dump_dir = arg_value(argc, argv, "--dump-dir", ".");
   std::string prop = arg_value(argc, argv, "--prop", "C11"); uint64_t seed = strtoull(arg_value(argc, argv, "--seed", "1"), 0, 10); int cases = atoi(arg_value(argc, argv, "--cases", "100")); int maxsize = atoi(arg_value(argc, argv, "--maxsize", "100"));
   std::string faildir = arg_value(argc, argv, "--faildir", "."); stats().path = arg_value(argc, argv, "--out", ""); mkdir(faildir.c_str(), 0755); Stats &st = stats();
   int fatal_mode = atoi(arg_value(argc, argv, "--fatal-mode", "0"));
   Profile pf = profile_for(prop); std::vector<std::string> cat = read_catalogue(); std::vector<std::string> use = cat; if (!pf.fixtures) use.erase(std::remove_if(use.begin(), use.end(), [](const std::string &s) { return s == "masa_test_function" || s == "masa_uninit"; }), use.end());
   if (fatal_mode == 1) use.erase(std::remove(use.begin(), use.end(), std::string("sod_1d")), use.end());   // exit() build: sod's own fatal error on non-bracketing parameters would end the harness
+  if (prop == "C11" || prop == "C17" || prop == "C10" || prop == "C19") for (int i = 0; i < 5; i++) { use.push_back("cp_normal"); use.push_back("radiation_integrated_intensity"); }   // the only solutions with vector parameters
   st.count("catalogue_entries", (long long)cat.size());
   long budget = -1; int failures = 0;
   rc::detail::TestParams tp; tp.seed = mix64(seed ^ 0x5eed); tp.maxSuccess = cases; tp.maxSize = maxsize; rc::detail::TestMetadata md; md.id = prop + ":histories"; md.description = md.id;
@@ -57,6 +63,7 @@ int main(int argc, char **argv) {
     auto raw = *rc::gen::container<std::vector<std::vector<uint64_t>>>(rc::gen::container<std::vector<uint64_t>>(6, rc::gen::resize(rc::kNominalSize, rc::gen::arbitrary<uint64_t>())));
     std::vector<Op> ops; for (auto &r : raw) ops.push_back(decode(r, pf, prop));
     write_file(faildir + "/current.case", history_to_text(ops, prop));
+    if (dump_n > 0 && (int)st.counters["dumped"] < dump_n && ops.size() >= 5) { write_file(dump_dir + "/case_" + std::to_string(st.counters["dumped"]) + ".case", history_to_text(ops, prop)); st.count("dumped"); }
     History H; H.cfg.catalogue = use; H.cfg.check_fresh = pf.fresh; H.cfg.audit_every_step = pf.audit; H.cfg.fatal_mode = fatal_mode; H.run(ops);
     st.count("cases"); st.count("steps", H.step); st.count("evaluations", H.step); st.count("evaluator_calls", H.evals);
     for (auto &kv : H.cls) st.count("class:" + kv.first, kv.second); if (ops.size() >= 20) st.count("class:H:length>=20");
